@@ -119,6 +119,8 @@ func runInBubble(p *Plan, mk func() []Monitor, res *Result) {
 		w.Adv = newAdversary(w, 2)
 	}
 	w.scheduleInjections()
+	w.scheduleWatches()
+	w.scheduleComp()
 	w.Adv.start()
 	dur := time.Duration(scn.DurationSec) * time.Second
 	if dur == 0 {
@@ -235,6 +237,9 @@ func (w *World) doChainEv(ev *ChainEv) {
 // doOp performs an operator action (scheduler context: spawns a task).
 func (w *World) doOp(i int, op *Op) {
 	n := w.Nodes[op.Node]
+	if w.doExtOp(i, op) {
+		return
+	}
 	switch op.Kind {
 	case "crash":
 		n.Crash(int(op.N))
@@ -259,6 +264,7 @@ func (w *World) doOp(i int, op *Op) {
 		}()
 		var err error
 		var id string
+		w.Observe(&Obs{Node: n.ID, Inc: n.inc, Kind: "op.start", Str: op.Kind, Num: int64(i)})
 		switch op.Kind {
 		case "swapout", "swapin":
 			ch := w.Plan.Scn.Channels[op.Chan%len(w.Plan.Scn.Channels)]
